@@ -410,41 +410,64 @@ func (c *Ctx) validateRejectsNegative(hash *ssa.Function, field string) bool {
 	if val == nil {
 		return false
 	}
-	neg := ana.AtomCallBool(func(call *ssa.Call, d ana.CalleeDesc) bool {
-		if d.Recv != "Int" || d.Name != "IsNegative" || len(call.Call.Args) != 1 {
-			return false
-		}
-		return p.Leaves(call.Call.Args[0], ana.PVOpt{}).HasField(field)
-	}, true)
-	nonNeg := ana.AtomCallBool(func(call *ssa.Call, d ana.CalleeDesc) bool {
-		if d.Recv != "Int" || (d.Name != "IsPositive") || len(call.Call.Args) != 1 {
-			return false
-		}
-		return p.Leaves(call.Call.Args[0], ana.PVOpt{}).HasField(field)
-	}, true)
-	// every success return is cut off from the entry by "not negative"
-	ok := true
-	n := 0
-	ana.Instrs(val, func(in ssa.Instruction) {
-		ret, isRet := in.(*ssa.Return)
-		if !isRet || in.Parent() != val || len(ret.Results) != 1 {
-			return
-		}
-		if !ana.IsNilConst(ret.Results[0]) {
-			return
-		}
-		n++
-		notNeg := func(cd ana.Cond) (bool, bool) {
-			if pol, m := neg(cd); m {
-				return !pol, true
+	// isAmount(v): v carries the field (in Validate itself) or the bound parameter (in a helper)
+	var rejects func(fn *ssa.Function, isAmount func(ssa.Value) bool, depth int) bool
+	rejects = func(fn *ssa.Function, isAmount func(ssa.Value) bool, depth int) bool {
+		neg := ana.AtomCallBool(func(call *ssa.Call, d ana.CalleeDesc) bool {
+			return d.Recv == "Int" && d.Name == "IsNegative" && len(call.Call.Args) == 1 && isAmount(call.Call.Args[0])
+		}, true)
+		nonNeg := ana.AtomCallBool(func(call *ssa.Call, d ana.CalleeDesc) bool {
+			return d.Recv == "Int" && d.Name == "IsPositive" && len(call.Call.Args) == 1 && isAmount(call.Call.Args[0])
+		}, true)
+		// ... or the check is made by a helper of the same package that is handed the amount and whose own
+		// success returns are cut off by it
+		viaHelper := ana.AtomErrNil(func(call *ssa.Call, d ana.CalleeDesc) bool {
+			g := call.Call.StaticCallee()
+			if g == nil || g.Blocks == nil || g.Pkg != fn.Pkg || depth >= 2 {
+				return false
 			}
-			return nonNeg(cd)
-		}
-		if !ana.Guarded(ret, notNeg) {
-			ok = false
-		}
-	})
-	return ok && n > 0
+			for i, a := range call.Call.Args {
+				if !isAmount(a) || i >= len(g.Params) {
+					continue
+				}
+				par := g.Params[i]
+				if rejects(g, func(v ssa.Value) bool {
+					l := p.Leaves(v, ana.PVOpt{})
+					return len(l.Leaves) >= 1 && paramLeaf(l, g, par.Name())
+				}, depth+1) {
+					return true
+				}
+			}
+			return false
+		})
+		ok := true
+		n := 0
+		ana.Instrs(fn, func(in ssa.Instruction) {
+			ret, isRet := in.(*ssa.Return)
+			if !isRet || in.Parent() != fn || len(ret.Results) != 1 {
+				return
+			}
+			// a success return: nil, or the result of a helper whose success is decided by the atoms above
+			if !ana.IsNilConst(ret.Results[0]) {
+				return
+			}
+			n++
+			notNeg := func(cd ana.Cond) (bool, bool) {
+				if pol, m := neg(cd); m {
+					return !pol, true
+				}
+				if pol, m := nonNeg(cd); m {
+					return pol, true
+				}
+				return viaHelper(cd)
+			}
+			if !ana.Guarded(ret, notNeg) {
+				ok = false
+			}
+		})
+		return ok && n > 0
+	}
+	return rejects(val, func(v ssa.Value) bool { return p.Leaves(v, ana.PVOpt{}).HasField(field) }, 0)
 }
 
 // piecesLeaves is the union of the provenance of the pieces, each evaluated in the frame it belongs to.
